@@ -4,6 +4,8 @@ Tie: fault injection.  For each generated communicating program (harness.cpp int
   step 1  fault-free run -> the distinct event dates;
   step 2  one run per (resource in hosts+links, date in {event date, just before, just after}), the failure being issued
           by a controller actor on a host that never fails or by a state profile, + seeded pairs of failures (incl. turn_on);
+  second program class (`M:ptask`, host model ptask_L07): parallel executions on host lists; every parallel execution is hit
+          on the first, a middle and the last host of its list at its start / middle / end dates (`ptask_fault_points`);
 every log is replayed on the Lean model (trace acceptance) and the monitor `failureOk` is evaluated on it (Driver.lean)."""
 import json
 import os
